@@ -116,7 +116,6 @@ class Machine:
         loader.load(program)
         self._routines = loader.get_routines()
         self._program = loader.get_code()
-        self._keep_running = True
 
         logging.debug('Starting to execute.')
         self._clock.start()
